@@ -5,6 +5,7 @@ import json
 import subprocess
 
 from . import gen
+from . import helpers
 from .common import *
 
 
@@ -163,6 +164,8 @@ def run(tier, seed, replay=None):
               "%d failures" % len(spec_bad))
     if tier == "thorough" and not replay:
         vm_compute_crosscheck(ck, rng.sample(cases, 600))
+    # extra obligation: the crate's pure helper API = Model/Helpers.v, laws in Properties/Helpers.v
+    helpers.run_helpers(ck, tier, rng, replay)
 
     if spec_bad:
         # smallest failing input first
